@@ -376,7 +376,7 @@ func (x *Exec) opAllocate(st *Step) { //nolint:cyclop,gocyclo,maintidx
 		m.Add(ref.AttrEvenPort, []byte{0x80})
 	}
 	genBefore := len(x.w.gen.made)
-	failsBefore := x.w.gen.failed
+	failsBefore := x.w.gen.failed + x.w.gen.rangeFull
 	// lost response: the server's write of the answer fails; the client retransmits the very same
 	// request and must get the answer it would have got (C19)
 	lost := st.RespLost && st.Defect == "" && !c.Stream && !st.Retx && st.TxFrom == 0 && x.m.Allocs[c.Idx] == nil && x.w.cfg.CallbackSleepS == 0
@@ -403,7 +403,7 @@ func (x *Exec) opAllocate(st *Step) { //nolint:cyclop,gocyclo,maintidx
 		}
 		firstAttempt = x.opStart // the allocation, if the lost attempt created it, counts from then
 		x.tick()
-		failsBefore = x.w.gen.failed // (a scripted generator failure may have hit the lost attempt)
+		failsBefore = x.w.gen.failed + x.w.gen.rangeFull // (a generator failure may have hit the lost attempt)
 		genBeforeRetry = len(x.w.gen.made)
 		rq, _, proceed = x.authExchange(c, ui, m, st, ref.MethodAllocate, "Allocate (retransmitted after a lost response)")
 		if !proceed {
@@ -463,7 +463,7 @@ func (x *Exec) opAllocate(st *Step) { //nolint:cyclop,gocyclo,maintidx
 		refuse = "quota reached"
 	}
 	success := rq.resp != nil && rq.resp.Class == ref.ClassSuccess
-	genFailed := x.w.gen.failed > failsBefore
+	genFailed := x.w.gen.failed+x.w.gen.rangeFull > failsBefore // scripted failure, or the library's generator found no free port
 	if refuse != "" || genFailed {
 		if success {
 			props := []string{"X00"}
@@ -562,7 +562,7 @@ func (x *Exec) opAllocate(st *Step) { //nolint:cyclop,gocyclo,maintidx
 	}
 	for _, o := range x.m.Allocs {
 		if o.Relay.Port == rport && o.Relay.IP.Equal(rip) && o.TCP == a.TCP {
-			x.fail([]string{"C19", "C20", "C04"}, "allocate-relayed-address-shared", "relayed address %v is already the relayed address of client %d's live allocation", relay, o.Client)
+			x.fail([]string{"C19", "C20", "C04", "C05"}, "allocate-relayed-address-shared", "relayed address %v is already the relayed address of client %d's live allocation", relay, o.Client)
 
 			return
 		}
